@@ -112,7 +112,7 @@ func resKey(id *pbresource.ID) string {
 }
 
 func evKey(r *pbresource.Resource, del bool) string {
-	return resKey(r.Id) + "|" + r.Id.Uid + "|" + r.Version + "|" + strconv.FormatBool(del)
+	return resKey(r.Id) + "|" + r.Id.Uid + "|" + r.Version + "|" + r.Generation + "|" + strconv.FormatBool(del)
 }
 
 func errEnum(err error) string {
@@ -167,6 +167,7 @@ type commit struct {
 
 type world struct {
 	run   *hx.Run
+	rng   *hx.RNG
 	mode  string // "inmem" | "raft"
 	be    *inmem.Backend
 	rb    *raft.Backend
@@ -179,12 +180,13 @@ type world struct {
 	ops     []string
 	queued  int
 	freshN  int
+	uniq    int // payload counter: every written / restored resource is distinguishable
 
 	// monitor state (a map-based picture built only from what the implementation returned)
 	seq       int
 	epoch     int
 	commits   []commit
-	evSeq     map[string]int
+	evSeqs    map[string][]int
 	present   map[string]*pbresource.Resource
 	cas       map[string]int
 	subjs     map[string]*subjRec
@@ -195,8 +197,8 @@ type world struct {
 
 var bg = context.Background()
 
-func newWorld(run *hx.Run, mode string) *world {
-	w := &world{run: run, mode: mode, evSeq: map[string]int{}, present: map[string]*pbresource.Resource{},
+func newWorld(run *hx.Run, rng *hx.RNG, mode string) *world {
+	w := &world{run: run, rng: rng, mode: mode, evSeqs: map[string][]int{}, present: map[string]*pbresource.Resource{},
 		cas: map[string]int{}, subjs: map[string]*subjRec{}, tags: map[string]bool{}, violated: map[string]bool{}}
 	var err error
 	if mode == "raft" {
@@ -233,8 +235,16 @@ func (w *world) violate(sig, desc string) {
 		return
 	}
 	w.violated[sig] = true
-	w.run.Violate(sig, desc, append([]string(nil), w.ops...))
+	// hx keeps the first 50 violations of a run: keep room for every signature
+	if sigCount[sig] < 3 {
+		w.run.Violate(sig, desc, append([]string(nil), w.ops...))
+	} else {
+		w.run.Tag("violation:" + sig)
+	}
+	sigCount[sig]++
 }
+
+var sigCount = map[string]int{}
 
 // peek reads the stored resource with this storage key regardless of uid / group version (not logged).
 func (w *world) peek(id *pbresource.ID) *pbresource.Resource {
@@ -255,7 +265,7 @@ func (w *world) recordCommit(r *pbresource.Resource, del bool) {
 	w.seq++
 	c := commit{seq: w.seq, res: clone(r), del: del, epoch: w.epoch}
 	w.commits = append(w.commits, c)
-	w.evSeq[evKey(r, del)] = w.seq
+	w.evSeqs[evKey(r, del)] = append(w.evSeqs[evKey(r, del)], w.seq)
 	if del {
 		delete(w.present, resKey(r.Id))
 	} else {
@@ -328,7 +338,7 @@ func (w *world) opWrite(res *pbresource.Resource) {
 	var err error
 	var op string
 	if w.mode == "raft" {
-		w.raftIdx += uint64(1 + w.run.RNG.Intn(3))
+		w.raftIdx += uint64(1 + w.rng.Intn(3))
 		op = fmt.Sprintf("rw %d %s", w.raftIdx, encRes(res))
 		stored, err = w.raftApplyWrite(clone(res), w.raftIdx)
 		if isRetired(res.Id.Type) {
@@ -402,7 +412,7 @@ func (w *world) opDelete(id *pbresource.ID, vsn string) {
 	var err error
 	var op string
 	if w.mode == "raft" {
-		w.raftIdx += uint64(1 + w.run.RNG.Intn(3))
+		w.raftIdx += uint64(1 + w.rng.Intn(3))
 		op = fmt.Sprintf("rd %s %s", encID(id), hx.EncS(vsn))
 		err = w.raftApplyDelete(clone(id), vsn, w.raftIdx)
 		if isRetired(id.Type) {
@@ -704,39 +714,60 @@ func (w *world) monEvent(rec *watchRec, r *pbresource.Resource, del bool) {
 	} else {
 		w.tag("next:upsert")
 	}
-	seq, ok := w.evSeq[evKey(r, del)]
-	if !ok {
+	ek := evKey(r, del)
+	cands := w.evSeqs[ek]
+	if len(cands) == 0 {
 		w.violate("watch:event-never-committed", "a watcher received an event that corresponds to no committed operation")
 		return
 	}
-	c := w.commits[seq-1]
-	switch {
-	case c.epoch < rec.snapEpoch:
-		w.tag("next:pre-restore-event")
-		w.violate("watch:pre-restore-event-after-snapshot",
-			"an event committed before a restore was delivered to a watcher whose snapshot was taken after the restore")
-		if seq <= rec.lastStale {
-			w.violate("watch:events-out-of-order", "events older than the snapshot arrived out of commit order")
+	// the event the contract asks for next: the first matching commit after the last one delivered
+	var next *commit
+	for i := rec.lastSeq; i < len(w.commits); i++ {
+		if rec.relevant(w.commits[i]) {
+			next = &w.commits[i]
+			break
 		}
-		rec.lastStale = seq
-	case seq <= rec.snapSeq:
-		w.tag("next:stale-event")
-		w.violate("watch:stale-event-after-snapshot",
-			"an event committed before the snapshot was taken was delivered after EndOfSnapshot (version regress)")
-		if seq <= rec.lastStale {
-			w.violate("watch:events-out-of-order", "events older than the snapshot arrived out of commit order")
-		}
-		rec.lastStale = seq
-	case seq <= rec.lastSeq:
-		w.violate("watch:events-out-of-order", "an event arrived after a later commit's event (or twice)")
-	default:
-		for _, m := range w.commits[rec.lastSeq:seq-1] {
-			if rec.relevant(m) {
-				w.violate("watch:missing-event", "a matching commit was skipped: a later commit's event arrived first")
-				break
+	}
+	seq := 0
+	if next != nil && evKey(next.res, next.del) == ek {
+		seq = next.seq
+		rec.lastSeq = seq
+	} else {
+		// not the expected one: which commit is it? (an event does not carry its index, and a restore can
+		// bring a version back, so several commits may look the same; prefer the explanation "older than
+		// the snapshot, in order", then "already delivered", then "skipped ahead")
+		stale, dup, ahead := 0, 0, 0
+		for _, c := range cands {
+			switch {
+			case (c <= rec.snapSeq || w.commits[c-1].epoch < rec.snapEpoch) && c > rec.lastStale && stale == 0:
+				stale = c
+			case c <= rec.lastSeq:
+				dup = c
+			case c > rec.lastSeq && ahead == 0:
+				ahead = c
 			}
 		}
-		rec.lastSeq = seq
+		switch {
+		case stale != 0:
+			seq = stale
+			rec.lastStale = seq
+			if w.commits[seq-1].epoch < rec.snapEpoch {
+				w.tag("next:pre-restore-event")
+				w.violate("watch:pre-restore-event-after-snapshot",
+					"an event committed before a restore was delivered to a watcher whose snapshot was taken after the restore")
+			} else {
+				w.tag("next:stale-event")
+				w.violate("watch:stale-event-after-snapshot",
+					"an event committed before the snapshot was taken was delivered after EndOfSnapshot (version regress)")
+			}
+		case ahead != 0:
+			seq = ahead
+			rec.lastSeq = seq
+			w.violate("watch:missing-event", "a matching commit was skipped: a later commit's event arrived first")
+		default:
+			seq = dup
+			w.violate("watch:events-out-of-order", fmt.Sprintf("an event arrived again or after a later commit's event (%s, commit #%d, last delivered #%d, snapshot at #%d)", encRes(r), seq, rec.lastSeq, rec.snapSeq))
+		}
 	}
 	// read after event: the store must already hold this commit or a later one on the same resource
 	cur := w.peek(r.Id)
@@ -998,7 +1029,8 @@ func (g *gen) version(cur *pbresource.Resource, key string) string {
 
 func (g *gen) resource() (*pbresource.Resource, *pbresource.Resource) {
 	id, cur := g.target()
-	res := &pbresource.Resource{Id: id, Generation: strconv.Itoa(g.r.Intn(50))}
+	g.w.uniq++
+	res := &pbresource.Resource{Id: id, Generation: strconv.Itoa(g.w.uniq)}
 	res.Version = g.version(cur, resKey(id))
 	if cur != nil {
 		g.stale[resKey(id)] = append(g.stale[resKey(id)], cur.Version)
@@ -1103,7 +1135,14 @@ func (g *gen) step() {
 	default:
 		var rs []*pbresource.Resource
 		if len(w.snaps) > 0 && g.r.Chance(70) {
-			rs = hx.Pick(g.r, w.snaps)
+			// an earlier snapshot; payloads are renumbered so that the events of the new epoch stay
+			// distinguishable from those of the old one (ids, uids and versions come back as they were)
+			for _, x := range hx.Pick(g.r, w.snaps) {
+				y := clone(x)
+				w.uniq++
+				y.Generation = strconv.Itoa(w.uniq)
+				rs = append(rs, y)
+			}
 		} else {
 			for k := g.r.Intn(4); k > 0; k-- {
 				res, _ := g.resource()
@@ -1127,7 +1166,7 @@ func controlledCase(run *hx.Run, r *hx.RNG, n int) {
 	if r.Chance(30) {
 		mode = "raft"
 	}
-	w := newWorld(run, mode)
+	w := newWorld(run, r, mode)
 	g := &gen{r: r, w: w, names: namePool, stale: map[string][]string{}}
 	if r.Chance(12) {
 		g.weird = true
@@ -1151,7 +1190,7 @@ func controlledCase(run *hx.Run, r *hx.RNG, n int) {
 
 // witnessLag replays the lagging-publisher witness of known finding watch:stale-event-after-snapshot.
 func witnessLag(run *hx.Run) {
-	w := newWorld(run, "inmem")
+	w := newWorld(run, hx.NewRNG(7), "inmem")
 	id := &pbresource.ID{Type: &pbresource.Type{Group: "demo", GroupVersion: "v1", Kind: "artist"},
 		Tenancy: &pbresource.Tenancy{Partition: "default", Namespace: "default"}, Name: "a", Uid: "u1"}
 	w.opWrite(&pbresource.Resource{Id: id, Generation: "1"})
@@ -1167,7 +1206,7 @@ func witnessLag(run *hx.Run) {
 
 // witnessRestore replays the witness of known finding watch:pre-restore-event-after-snapshot.
 func witnessRestore(run *hx.Run) {
-	w := newWorld(run, "inmem")
+	w := newWorld(run, hx.NewRNG(7), "inmem")
 	id := &pbresource.ID{Type: &pbresource.Type{Group: "demo", GroupVersion: "v1", Kind: "artist"},
 		Tenancy: &pbresource.Tenancy{Partition: "default", Namespace: "default"}, Name: "a", Uid: "u1"}
 	w.opWrite(&pbresource.Resource{Id: id, Generation: "1"})
